@@ -18,7 +18,7 @@ from .c13 import criteria
 
 PID = 'C15'
 TIMEOUT = 60.0
-RULE = ('BFS from 7 containers (one with zero cycles, one with cycles of thousands of samples - depth 2 only) over 31 state-changing operations (8 metric computations in cycle / augmented mode, 4 metric '
+RULE = ('BFS from 7 containers (one with zero cycles, one with cycles of thousands of samples - depth 2 only) over 30 state-changing operations (8 metric computations in cycle / augmented mode, 4 metric '
         'additions incl. a wrong-length one, 2 re-additions of a stored chain metric under another name, cycle timings, 14 subset selections covering all six comparators, '
         'negative / decimal / exponent literals and chain-level metrics, chain timings) to the fix-point of canonical states or the depth bound; '
         '14 observations after every transition; non-trivial = the operation changed the canonical state')
